@@ -251,6 +251,12 @@ func streamStoreReadonly(t *testing.T, o *Out) {
 			}
 			g.history(c.n+1, wR)
 		}
+		// write requests sent to the read and syntax APIs (REST routers, gRPC servers as the
+		// daemon builds them): none may be carried out
+		if acc := e.writeAttempts("wprobe-"+strconv.Itoa(i), "wprobe-sub"); acc != "" {
+			c.cols = append(c.cols, "x_write_accepted="+acc)
+			o.Count("write-accepted-by-read-api")
+		}
 		c.emit(fmt.Sprintf("r%d", i), c.okWrites >= 1 && rms >= 1)
 	}
 }
@@ -425,6 +431,31 @@ func (g *stGen) faultDelete() {
 	}
 }
 
+// faultMappingHuge: one request with more than chunkSizeInsertUUIDMappings (15000) distinct
+// strings, one of them the poison string: a mapping INSERT that is not the only one (and most
+// likely not the last one) fails; nothing of the request may remain.
+func (g *stGen) faultMappingHuge() {
+	r, c := g.r, g.c
+	ps := c.intern(stPoisonString)
+	seed := g.distinctTuples(2, "seed")
+	c.run(g.writeVia(pick(r, []string{"P", "T"}), seed, nil))
+	n := 7520 + r.Intn(60)
+	ns := g.ns(true)
+	ts := make([]stTuple, 0, n)
+	for i := 0; i < n; i++ {
+		ts = append(ts, stTuple{ns: ns, obj: c.intern("hm-o" + strconv.Itoa(i)), rel: "r", sub: stSub{id: c.intern("hm-s" + strconv.Itoa(i))}})
+	}
+	k := r.Intn(n)
+	if r.Intn(2) == 0 {
+		ts[k].obj = ps
+	} else {
+		ts[k].sub = stSub{id: ps}
+	}
+	c.env.o.Count("fault:mapping-huge")
+	c.run(g.writeVia(pick(r, []string{"P", "T"}), ts, seed[:1]))
+	c.run(&stItem{kind: "LA", q: &stQuery{}, via: r.Intn(3), size: 0})
+}
+
 func (g *stGen) faultMapping() {
 	r, c := g.r, g.c
 	ps := c.intern(stPoisonString)
@@ -488,6 +519,8 @@ func streamStoreFaults(t *testing.T, o *Out) {
 			}
 		}
 		switch x := r.Intn(100); {
+		case i%150 == 7:
+			g.faultMappingHuge()
 		case bigLeft > 0 && (i%97 == 5 || (n < 30 && i == n-1)):
 			bigLeft--
 			g.faultInsert(true)
